@@ -237,15 +237,40 @@ where
     }
 }
 
+/// Completes when the session is told to end while its connection is still being established:
+/// the command channel was closed (eviction, server task gone) or `Shutdown` was received.
+/// Decode level changes received in the meantime are applied to `decode`.
+async fn wait_for_session_end(
+    commands: &mut tokio::sync::mpsc::Receiver<ServerCommand>,
+    decode: &mut DecodeLevel,
+) {
+    loop {
+        match commands.recv().await {
+            None | Some(ServerCommand::Shutdown) => return,
+            Some(ServerCommand::ChangeDecoding(level)) => *decode = level,
+        }
+    }
+}
+
 async fn run_session<T: RequestHandler>(
     socket: tokio::net::TcpStream,
     addr: SocketAddr,
     mut handler: TcpServerConnectionHandler,
-    decode: DecodeLevel,
+    mut decode: DecodeLevel,
     handlers: ServerHandlerMap<T>,
-    commands: tokio::sync::mpsc::Receiver<ServerCommand>,
+    mut commands: tokio::sync::mpsc::Receiver<ServerCommand>,
 ) {
-    match handler.handle(socket).await {
+    // establishing the connection (the TLS handshake) must not outlive the session: an evicted
+    // session or a server shutdown ends it, which drops the socket
+    let result = tokio::select! {
+        result = handler.handle(socket) => result,
+        _ = wait_for_session_end(&mut commands, &mut decode) => {
+            tracing::info!("session ended while establishing the connection from {}", addr);
+            return;
+        }
+    };
+
+    match result {
         Err(err) => {
             tracing::warn!("error from {}: {}", addr, err);
         }
